@@ -2,7 +2,7 @@
 
 use std::any::type_name;
 use std::num::NonZero;
-use std::sync::atomic::{AtomicBool, AtomicU64, Ordering};
+use std::sync::atomic::{self, AtomicBool, AtomicU64, Ordering};
 use std::sync::{Arc, Mutex};
 use std::thread::{self, JoinHandle as ThreadJoinHandle};
 use std::{fmt, mem, panic};
@@ -96,6 +96,11 @@ impl PoolInner {
         #[cfg(folo_verif)]
         crate::verif::sim_point("ensure:after-cas");
 
+        // Pairs with the fence in join_all_workers(): either its walk over the registry
+        // observes the processor state created above (and signals it), or the shutdown check
+        // under the handle-list lock below observes the shutdown flag.
+        atomic::fence(Ordering::SeqCst);
+
         let workers_count = self.workers_per_processor.get();
         let mut new_handles = Vec::with_capacity(workers_count as usize);
 
@@ -162,6 +167,10 @@ impl PoolInner {
         // new handles to the list, as they would be leaked. Instead, we join
         // them immediately.
         if self.shutdown.load(Ordering::Acquire) {
+            // The processor state may have been created after join_all_workers() walked the
+            // registry, in which case nobody has told these workers to stop yet.
+            state.signal_shutdown();
+
             for handle in new_handles {
                 if let Err(payload) = handle.join() {
                     panic::resume_unwind(payload);
@@ -179,6 +188,9 @@ impl PoolInner {
         // We use Release to ensure this store is visible to ensure_workers_spawned
         // when it acquires the lock.
         self.shutdown.store(true, Ordering::Release);
+
+        // Pairs with the fence in ensure_workers_spawned().
+        atomic::fence(Ordering::SeqCst);
 
         #[cfg(folo_verif)]
         crate::verif::sim_point("join:after-flag");
